@@ -88,20 +88,21 @@ class set:
 
     def __exit__(self, exc_type, exc_value, traceback):
         # undo the assignments of __init__ in reverse order
+        # (keys are looked up under whichever '-'/'_' spelling the store holds now)
         for op, path, value in reversed(self._record):
             d = self.config
             if op == "replace":
                 for key in path[:-1]:
-                    d = d.setdefault(key, {})
-                d[path[-1]] = value
+                    d = d.setdefault(canonical_name(key, d), {})
+                d[canonical_name(path[-1], d)] = value
             else:  # insert
                 for key in path[:-1]:
                     try:
-                        d = d[key]
+                        d = d[canonical_name(key, d)]
                     except KeyError:
                         break
                 else:
-                    d.pop(path[-1], None)
+                    d.pop(canonical_name(path[-1], d), None)
 
     def _assign(
         self,
